@@ -60,7 +60,7 @@ def _parse_output(out):
             if curid is not None:
                 res[curid] = cur
             curid, cur = None, None
-        elif cur is not None:
+        elif cur is not None and not l.startswith("ALLOCFAIL "):
             cur.append(l)
     return res, curid, cur
 
@@ -78,7 +78,8 @@ def run_batch(binp, lines, timeout=300):
         with open(f, "w") as fh:
             fh.write("\n".join(todo) + "\n")
         try:
-            p = subprocess.run([binp, "run", f], stdout=subprocess.PIPE, stderr=subprocess.DEVNULL, timeout=timeout)
+            p = subprocess.run([binp, "run", f], stdout=subprocess.PIPE, stderr=subprocess.DEVNULL, timeout=timeout,
+                               env=dict(os.environ, RUST_BACKTRACE="0"))
             out, rc = p.stdout.decode("utf8", "replace"), p.returncode
         except subprocess.TimeoutExpired as ex:
             out, rc = (ex.stdout or b"").decode("utf8", "replace"), "timeout"
@@ -100,11 +101,13 @@ def run_batch(binp, lines, timeout=300):
 def run_child(binp, line, timeout=20):
     """one history in its own process"""
     try:
-        p = subprocess.run([binp, "one", line], stdout=subprocess.PIPE, stderr=subprocess.PIPE, timeout=timeout)
+        p = subprocess.run([binp, "one", line], stdout=subprocess.PIPE, stderr=subprocess.PIPE, timeout=timeout,
+                           env=dict(os.environ, RUST_BACKTRACE="0"))
         out, rc, err = p.stdout.decode("utf8", "replace"), p.returncode, p.stderr.decode("utf8", "replace")
     except subprocess.TimeoutExpired as ex:
         out, rc, err = (ex.stdout or b"").decode("utf8", "replace"), "timeout", ""
-    lines = [l for l in out.splitlines() if l != "DONE"]
+    raw = [l for l in out.splitlines() if l != "DONE"]
+    lines = [l for l in raw if not l.startswith("ALLOCFAIL ")]
     complete = out.rstrip().endswith("DONE")
     if rc == "timeout":
         fate = "timeout"
@@ -115,4 +118,4 @@ def run_child(binp, line, timeout=20):
     else:
         fate = "exit %s" % rc
     m = re.search(r"memory allocation of (\d+) bytes failed", err)
-    return {"lines": lines, "fate": fate, "alloc_error": int(m.group(1)) if m else None, "stderr": err[-400:]}
+    return {"lines": lines, "raw_lines": raw, "fate": fate, "alloc_error": int(m.group(1)) if m else None, "stderr": err[-400:]}
